@@ -144,6 +144,9 @@ Section DlCache.
 
 End DlCache.
 
+Arguments OGet {name V} n dl.
+Arguments OLookup {name V} n.
+
 (* ---- front/hash.c ------------------------------------------------------------------------------
    unsigned int hash_string(const char * string)
    { char c; unsigned int val = 5381; while ((c = *string++) != 0) val = ((val << 5) + val) + c; }
